@@ -368,6 +368,10 @@ def check_c09(tier, seed):
             written = [
                 ("single-pointer-form", "accept", [], "var _ = kessoku.Inject[*App](\"Init\", kessoku.Set(kessoku.Provide(LoadCfg), kessoku.Struct[*Cfg]()), kessoku.Provide(NewApp))"),
                 ("single-value-form", "accept", [], "var _ = kessoku.Inject[*App](\"Init\", kessoku.Provide(DefaultCfg), kessoku.Struct[Cfg](), kessoku.Provide(NewApp))"),
+                ("set-variable-declared-inside-a-function", "accept", [],
+                 "func setup() {\n\tvar local = kessoku.Set(kessoku.Provide(LoadCfg), kessoku.Struct[*Cfg]())\n\t_ = kessoku.Inject[*App](\"Init\", local, kessoku.Provide(NewApp))\n}"),
+                ("set-variable-inside-a-function-with-duplicate", "dup", ["Cfg"],
+                 "func setup() {\n\tvar local = kessoku.Set(kessoku.Provide(LoadCfg), kessoku.Provide(LoadCfg2))\n\t_ = kessoku.Inject[*App](\"Init\", local, kessoku.Struct[*Cfg](), kessoku.Provide(NewApp))\n}\n\nfunc LoadCfg2() *Cfg { return &Cfg{} }"),
                 ("same-directive-through-two-sets", "dup", ["F0", "F1"],
                  "var SetA = kessoku.Set(kessoku.Provide(LoadCfg), kessoku.Struct[*Cfg]())\nvar SetB = kessoku.Set(kessoku.Struct[*Cfg]())\n\nvar _ = kessoku.Inject[*App](\"Init\", SetA, SetB, kessoku.Provide(NewApp))"),
                 ("pointer-and-value-form", "dup", ["F0", "F1"],
@@ -398,6 +402,10 @@ def check_c09(tier, seed):
                         nfunc = len(re.findall(r"^func ", now or "", re.M))
                         if rc != 0 or now is None or nfunc != 1:
                             R.violation("valid declaration (%s): exit %d, %s functions emitted (want exit 0 and exactly one)" % (label, rc, nfunc if now else "no file,"), rp)
+                        elif not re.search(r"^func Init\(\) \*App \{", now, re.M):
+                            # every type the injector needs is supplied by the declaration: no parameters
+                            R.violation("valid declaration (%s): the injector is %s, the declaration supplies everything (want func Init() *App)" % (
+                                label, (re.findall(r"^func .*$", now, re.M) or ["?"])[0]), rp)
                         continue
                     if rc == 0:
                         R.violation("declaration with a %s defect (%s) is accepted by the CLI (exit 0)" % (kind, label), rp)
